@@ -317,4 +317,59 @@ theorem exec_step : ∀ f, ExecOK (exec .now f) := by
       simp only [exec, h.cur]
       exact ⟨(spawn_step h.inv).weaken, rfl⟩
 
+/-- `pcore.Do` by a goroutine that has no current context (or any other): no `Pre` needed -/
+theorem exec_dodo_step {f : Nat} {id : Nat} {p : Prog} {g c : Nat} {w : World}
+    (hinv : Inv w) (hg : g < w.nextGid) (hgp : g ∉ pendGids w) :
+    Step none w (exec .now f (.dodo id p) g c w).2 ∧ (exec .now f (.dodo id p) g c w).2.tls = w.tls := by
+  cases f with
+  | zero => exact ⟨Step.refl hinv, rfl⟩
+  | succ f =>
+    simp only [exec]
+    exact doDo_step (id := id) (body := fun cx w1 => exec .now f p g cx w1) hinv hg hgp
+      (fun cx w1 hp => exec_step f p g cx w1 hp)
+
+theorem drain_step (fuel : Nat) : ∀ (n : Nat) (w : World), Inv w →
+    Step none w (drain .now fuel n w) ∧ (drain .now fuel n w).tls = w.tls := by
+  intro n
+  induction n with
+  | zero =>
+    intro w h
+    exact ⟨Step.of_same h rfl rfl rfl rfl rfl (logOK_same rfl rfl) (fun _ _ => rfl), rfl⟩
+  | succ n ih =>
+    intro w h
+    simp only [drain]
+    split
+    · exact ⟨Step.refl h, rfl⟩
+    · rename_i t r hp
+      have ht : w.pending[0]? = some t := by rw [hp]; rfl
+      have he : r = w.pending.eraseIdx 0 := by rw [hp]; rfl
+      rw [he]
+      obtain ⟨s1, t1⟩ := runTask_step (exec_step fuel) h ht
+      obtain ⟨s2, t2⟩ := ih _ s1.inv
+      exact ⟨s1.trans s2 (fun _ _ h => h), by rw [t2, t1]⟩
+
+theorem inv_init (sched : List Nat) : Inv { sched := sched } := by
+  refine ⟨fun _ _ => rfl, ?_, ?_, List.nodup_nil, ?_, ?_, ?_, List.nodup_nil, ?_, ?_⟩
+  · intro t h; simp at h
+  · intro t h; simp at h
+  · intro g t h; simp at h
+  · intro g c h; simp at h
+  · intro t h; simp at h
+  · intro t h; simp at h
+  · intro g g' c h; simp at h
+
+/-- the whole op of the harness -/
+theorem run_step (sched : List Nat) (p : Prog) :
+    Step none { sched := sched } (run .now sched p) ∧ (run .now sched p).tls = fun _ => none := by
+  simp only [run]
+  have h0 := inv_init sched
+  obtain ⟨s1, t1⟩ := exec_dodo_step (f := fuelFor p) (id := 1000) (p := p) (g := 0) (c := 0) h0 (Nat.zero_lt_one) (by simp [pendGids])
+  generalize exec .now (fuelFor p) (.dodo 1000 p) 0 0 { sched := sched } = r at s1 t1
+  have s2 : Step none r.2 (emit 0 (.done r.1) r.2) := emit_step s1.inv EvOK.done
+  have s3 : Step none (emit 0 (.done r.1) r.2)
+      { emit 0 (.done r.1) r.2 with oof := (emit 0 (.done r.1) r.2).oof || decide (r.1 = .fuel) } :=
+    Step.of_same s2.inv rfl rfl rfl rfl rfl (logOK_same rfl rfl) (fun _ _ => rfl)
+  obtain ⟨s4, t4⟩ := drain_step (fuelFor p) (fuelFor p) _ s3.inv
+  exact ⟨((s1.trans s2 (fun _ _ h => h)).trans s3 (fun _ _ h => h)).trans s4 (fun _ _ h => h), by rw [t4]; exact t1⟩
+
 end Pcore.Tls
